@@ -137,7 +137,10 @@ def inventory(prog, body, with_cleanup=False):
     # semantic keys: kind + descriptor + ordinal among equal ones
     seen = {}
     for s in out:
-        base = "%s|%s" % (s.kind, s.desc if s.kind != "call" else s.desc)
+        d = s.desc
+        if s.kind == "call" and d.endswith("::expect"):
+            d = d[:-len("expect")] + "unwrap"      # `.expect(msg)` and `.unwrap()` are the same site for review purposes
+        base = "%s|%s" % (s.kind, d)
         seen[base] = seen.get(base, 0) + 1
         s.key = "%s#%d" % (base, seen[base])
     return out
